@@ -452,3 +452,41 @@ impl MyIntf {
     #[verifier::external_body]
     pub fn next_ifaddr_v6(&self) -> (r: Option<&IfAddr>) { unimplemented!() }
 }
+// ---- notify_monitors ----
+pub enum TrySendError<T> { Full(T), Disconnected(T) }
+// R20 for flume's `try_send`: the same call plus a ghost log (sender, event, outcome: 0 delivered, 1 full, 2 disconnected)
+#[verifier::reject_recursive_types(T)]
+pub ghost struct Tried<T> { pub to: Sender<T>, pub ev: T, pub res: int }
+#[verifier::external_body]
+pub fn vx_try_send<T>(s: &Sender<T>, ev: T, log: &mut Ghost<Seq<Tried<T>>>) -> (r: core::result::Result<(), TrySendError<T>>)
+    ensures final(log)@ == old(log)@.push(Tried { to: *s, ev: ev, res: match r { Ok(_) => 0int, Err(TrySendError::Full(_)) => 1int, Err(TrySendError::Disconnected(_)) => 2int } }),
+{ unimplemented!() }
+// `event.clone()` (derived Clone): an equal event
+#[verifier::external_body]
+pub fn vx_clone_event(e: &DaemonEvent) -> (r: DaemonEvent) ensures r == *e { unimplemented!() }
+// `matches!(e, TrySendError::Disconnected(_))`
+pub fn vx_is_disconnected<T>(e: &TrySendError<T>) -> (r: bool)
+    ensures r == (*e is Disconnected),
+{ match e { TrySendError::Disconnected(_) => true, _ => false } }
+#[verifier::external_body]
+pub fn vx_vec_take<T>(v: &mut Vec<T>) -> (r: Vec<T>)
+    ensures r@ == old(v)@, final(v)@ == Seq::<T>::empty(),
+{ unimplemented!() }
+// the monitors among the first k that did not turn out to be disconnected, in order
+pub open spec fn still_connected(m0: Seq<Sender<DaemonEvent>>, l: Seq<Tried<DaemonEvent>>, n0: int, k: int) -> Seq<Sender<DaemonEvent>>
+    decreases k,
+{
+    if k <= 0 { Seq::empty() }
+    else if l[n0 + k - 1].res != 2 { still_connected(m0, l, n0, k - 1).push(m0[k - 1]) }
+    else { still_connected(m0, l, n0, k - 1) }
+}
+pub proof fn lemma_still_connected_prefix(m0: Seq<Sender<DaemonEvent>>, l: Seq<Tried<DaemonEvent>>, x: Tried<DaemonEvent>, n0: int, k: int)
+    requires 0 <= n0, 0 <= k, n0 + k <= l.len(),
+    ensures still_connected(m0, l.push(x), n0, k) == still_connected(m0, l, n0, k),
+    decreases k,
+{
+    if k > 0 {
+        lemma_still_connected_prefix(m0, l, x, n0, k - 1);
+        assert(l.push(x)[n0 + k - 1] == l[n0 + k - 1]);
+    }
+}
